@@ -78,6 +78,11 @@ pub enum Kind {
         buf_a: u32,
         buf_b: u32,
     },
+    /// engine (p): an operation history on one pipe of the simulated kernel
+    /// against the reference model (no shell involved)
+    Pipes {
+        hist: crate::pipes::PHist,
+    },
     /// engine (w): an operation history on WakerSet / ScheduledWakerQueue
     /// against the reference model (no shell involved)
     Wakers {
@@ -454,6 +459,7 @@ fn render_body(c: &Case) -> (String, Option<String>) {
             None,
         ),
         Kind::Wakers { hist } => (format!("# waker history: {}\n", serde_json::to_string(hist).unwrap_or_default()), None),
+        Kind::Pipes { hist } => (format!("# pipe history: {}\n", serde_json::to_string(hist).unwrap_or_default()), None),
         Kind::EarlyExit {
             n,
             s,
@@ -639,6 +645,22 @@ fn check_run(c: &Case, expected: &Option<String>, obs: &Observed) -> Option<(Str
     None
 }
 
+fn pipe_failure(hist: &crate::pipes::PHist, class: String, detail: String) -> Failure {
+    Failure {
+        key: format!("pipe:{class}"),
+        class,
+        detail: format!("{detail}\n--- history ---\n{}", serde_json::to_string(&hist.ops).unwrap_or_default()),
+        case: serde_json::to_value(Case {
+            kind: Kind::Pipes { hist: hist.clone() },
+            dash_c: false,
+        })
+        .unwrap(),
+        cfg: SimConfig::default(),
+        decisions: Vec::new(),
+        history_tail: Vec::new(),
+    }
+}
+
 fn waker_failure(hist: &crate::wakers::WHist, class: String, detail: String) -> Failure {
     Failure {
         key: format!("wakers:{class}"),
@@ -708,7 +730,7 @@ impl Prop for C14 {
     }
     fn assumptions(&self) -> Vec<String> {
         vec![
-            "decided relative to the repository's simulated kernel (VirtualSystem pipes: PIPE_BUF atomicity, PIPE_SIZE capacity) Added kinds: two processes writing PIPE_BUF-sized records to one pipe (no record torn), two processes reading one pipe (sums add up); crash-injection runs (liveness); every program ends by printing the shell's descriptor table; engine (w): 20/60 seeded histories per case on the real WakerSet / ScheduledWakerQueue against a reference model (cells dropped, emptied, re-filled at arbitrary points).".into(),
+            "decided relative to the repository's simulated kernel (VirtualSystem pipes: PIPE_BUF atomicity, PIPE_SIZE capacity) Added kinds: two processes writing PIPE_BUF-sized records to one pipe (no record torn), two processes reading one pipe (sums add up); crash-injection runs (liveness); every program ends by printing the shell's descriptor table; engine (p): 20/60 seeded histories per case on one pipe of the simulated kernel (read, write, dup, close, O_NONBLOCK switches, zero-timeout select; sizes around PIPE_BUF and the capacity) against a POSIX pipe model - results byte for byte, a blocked operation is woken exactly when it can proceed, select agrees with readiness; engine (w): 20/60 seeded histories per case on the real WakerSet / ScheduledWakerQueue against a reference model (cells dropped, emptied, re-filled at arbitrary points).".into(),
             "SIGPIPE is not modelled by the simulated kernel (EPIPE only); the early-exit case therefore checks liveness and prefix integrity only".into(),
             "sampling of schedules and sizes, not enumeration".into(),
         ]
@@ -751,6 +773,31 @@ impl Prop for C14 {
                 stats.count(k, v);
             }
         }
+        // engine (p): one pipe of the simulated kernel against a POSIX pipe model
+        {
+            let mut pr = Rng::stream(seed, 1478, index);
+            let n = match tier {
+                Tier::Quick => 20,
+                Tier::Thorough => 60,
+            };
+            let mut reach = std::collections::BTreeMap::new();
+            for _ in 0..n {
+                let hist = crate::pipes::generate(&mut pr, tier == Tier::Thorough);
+                stats.count("pipe_histories", 1);
+                let r = crate::sim::catch(|| crate::pipes::run(&hist, &mut reach));
+                let v = match r {
+                    Ok(v) => v,
+                    Err(p) => Some(("panic".to_string(), p)),
+                };
+                if let Some((class, detail)) = v {
+                    stats.count("violating_runs", 1);
+                    return Some(pipe_failure(&hist, class, detail));
+                }
+            }
+            for (k, v) in reach {
+                stats.count(k, v);
+            }
+        }
         let schedules = match tier {
             Tier::Quick => 8,
             Tier::Thorough => 24,
@@ -773,6 +820,7 @@ impl Prop for C14 {
                     Kind::TwoWriters { .. } => "kind:two-writers-atomicity",
                     Kind::TwoReaders { .. } => "kind:two-readers-partition",
                     Kind::Wakers { .. } => "kind:waker-history",
+                    Kind::Pipes { .. } => "kind:pipe-history",
                 };
                 stats.count(kind, 1);
                 if k == 0 && stats.samples.len() < 3 && index % 7 == 0 {
@@ -815,6 +863,15 @@ impl Prop for C14 {
 
     fn rerun(&self, case: &Value, cfg: &SimConfig, decisions: &[Decision]) -> Option<Failure> {
         let c: Case = serde_json::from_value(case.clone()).ok()?;
+        if let Kind::Pipes { hist } = &c.kind {
+            let mut reach = std::collections::BTreeMap::new();
+            let r = crate::sim::catch(|| crate::pipes::run(hist, &mut reach));
+            let v = match r {
+                Ok(v) => v,
+                Err(p) => Some(("panic".to_string(), p)),
+            };
+            return v.map(|(class, detail)| pipe_failure(hist, class, detail));
+        }
         if let Kind::Wakers { hist } = &c.kind {
             let mut reach = std::collections::BTreeMap::new();
             return crate::wakers::run(hist, &mut reach).map(|(class, detail)| waker_failure(hist, class, detail));
@@ -918,6 +975,11 @@ impl Prop for C14 {
             Kind::TwoReaders { n, s, chunk, buf_a, buf_b } => {
                 for m in smaller(*n) {
                     push(Kind::TwoReaders { n: m, s: *s, chunk: *chunk, buf_a: *buf_a, buf_b: *buf_b });
+                }
+            }
+            Kind::Pipes { hist } => {
+                for h in crate::pipes::shrink(hist) {
+                    push(Kind::Pipes { hist: h });
                 }
             }
             Kind::Wakers { hist } => {
